@@ -16,7 +16,7 @@ REL_W = 'pedantic/mixins/with_decorated_methods.py'
 EXN = {'AssertionError': 'AssertionErrorC', 'AttributeError': 'AttributeErrorC', 'TypeError': 'TypeErrorC',
        'ValueError': 'ValueErrorC', 'KeyError': 'KeyErrorC', 'IndexError': 'IndexErrorC', 'RuntimeError': 'RuntimeErrorC',
        'NotImplementedError': 'NotImplementedErrorC', 'Exception': 'ExceptionC', 'LookupError': 'LookupErrorC'}
-ATTRS = {'__orig_bases__', '__origin__', '__args__', '__orig_class__'}
+ATTRS = {'__orig_bases__', '__origin__', '__args__', '__orig_class__', '__parameters__'}
 
 
 def bad(why, node=None):
@@ -123,6 +123,11 @@ class Fn:
             if isinstance(idx, ast.Constant) and type(idx.value) is int:
                 return f'EIndex ({self.expr(n.value)}) {coq_Z(idx.value)}'
             bad('subscript with a non-literal index', n)
+        if isinstance(n, ast.Tuple) and isinstance(n.ctx, ast.Load) and len(n.elts) == 0:
+            return 'ETupleEmpty'
+        if isinstance(n, ast.Tuple) and isinstance(n.ctx, ast.Load) and len(n.elts) == 2 \
+                and not any(isinstance(e, ast.Starred) for e in n.elts):
+            return f'ETuple2 ({self.expr(n.elts[0])}) ({self.expr(n.elts[1])})'
         if isinstance(n, ast.Dict) and not n.keys:
             return 'EDictNew'
         if isinstance(n, ast.ListComp):
@@ -185,6 +190,21 @@ class Fn:
                         and len(g.args[0].args) == 1):
                     return f'EClassAttrIsProperty ({self.expr(g.args[0].args[0])}) ({self.expr(g.args[1])})'
                 bad('isinstance(.., property) on something else than getattr(type(x), name, None)', n)
+            if name == 'getattr' and not kw and len(pos) == 3 and isinstance(pos[1], ast.Constant) and type(pos[1].value) is str:
+                return f'EGetAttrD ({self.expr(pos[0])}) {cs(pos[1].value)} ({self.expr(pos[2])})'
+            if name == 'dict' and not kw and len(pos) == 1:
+                return f'EDictOf ({self.expr(pos[0])})'
+            if name == 'tuple' and not kw and len(pos) == 1 and isinstance(pos[0], ast.GeneratorExp):
+                g0 = pos[0]
+                if len(g0.generators) != 1 or g0.generators[0].is_async or g0.generators[0].ifs \
+                        or not isinstance(g0.generators[0].target, ast.Name):
+                    bad('unsupported generator expression', n)
+                g = g0.generators[0]
+                it = self.expr(g.iter)
+                self.comp.append(g.target.id)
+                elt = self.expr(g0.elt)
+                self.comp.pop()
+                return f'ETupleComp {cs(g.target.id)} ({it}) ({elt})'
             if name == 'dict' and not kw and not pos:
                 return 'EDictNew'
             if name in EXN:
@@ -193,14 +213,19 @@ class Fn:
                 self.message(pos[0] if pos else None)
                 return f'ENewExn {EXN[name]}'
             if name in self.functions:
-                param = self.functions[name]
-                if len(pos) == 1 and not kw:
-                    arg = pos[0]
-                elif not pos and len(kw) == 1 and kw[0].arg == param:
-                    arg = kw[0].value
+                params = self.functions[name]
+                params = [params] if isinstance(params, str) else list(params)
+                if len(pos) == len(params) and not kw:
+                    actual = list(pos)
+                elif not pos and sorted(k.arg for k in kw) == sorted(params):
+                    actual = [next(k.value for k in kw if k.arg == q) for q in params]
                 else:
                     bad(f'call of {name} with unexpected arguments', n)
-                return f'ECall {cs(name)} ({self.expr(arg)})'
+                if len(actual) == 1:
+                    return f'ECall {cs(name)} ({self.expr(actual[0])})'
+                if len(actual) == 2:
+                    return f'ECall2 {cs(name)} ({self.expr(actual[0])}) ({self.expr(actual[1])})'
+                bad(f'call of {name} with more than two arguments', n)
             bad(f'call of unknown function {name}', n)
         if isinstance(f, ast.Attribute):
             if is_name(f.value, self.self_name) and f.attr in self.methods:
@@ -209,6 +234,8 @@ class Fn:
                 return f'ECall {cs(f.attr)} (EVar {cs(self.self_name)})'
             if f.attr == 'startswith' and len(pos) == 1 and not kw:
                 return f'EStartsWith ({self.expr(f.value)}) ({self.expr(pos[0])})'
+            if f.attr == 'get' and len(pos) == 2 and not kw:
+                return f'EDictGetD ({self.expr(f.value)}) ({self.expr(pos[0])}) ({self.expr(pos[1])})'
             if f.attr == 'values' and not pos and not kw:
                 return f'EDictValues ({self.expr(f.value)})'
             bad(f'unsupported method call .{f.attr}', n)
@@ -233,6 +260,12 @@ class Fn:
                 e = self.expr(s.value)
                 self.local(t.id)
                 return f'SAssign {cs(t.id)} ({e})'
+            if isinstance(t, ast.Tuple) and len(t.elts) == 2 and all(isinstance(e, ast.Name) for e in t.elts) \
+                    and t.elts[0].id != t.elts[1].id:
+                e = self.expr(s.value)
+                self.local(t.elts[0].id)
+                self.local(t.elts[1].id)
+                return f'SAssign2 {cs(t.elts[0].id)} {cs(t.elts[1].id)} ({e})'
             if isinstance(t, ast.Subscript) and isinstance(t.value, ast.Subscript) and isinstance(t.value.value, ast.Name) \
                     and self.known(t.value.value.id):
                 return (f'SSetItem2 {cs(t.value.value.id)} ({self.expr(t.value.slice)}) ({self.expr(t.slice)}) '
@@ -312,7 +345,7 @@ def translate():
         bad('with_decorated_methods does not import GenericMixin from generic_mixin')
     if not imports(tree_w, 'enum', 'StrEnum') or not imports(tree_w, 'abc', 'ABC'):
         bad('StrEnum / ABC imports changed')
-    builtins_used = {'hasattr', 'getattr', 'setattr', 'len', 'list', 'zip', 'dir', 'dict', 'type', 'property', 'Generic',
+    builtins_used = {'hasattr', 'getattr', 'setattr', 'len', 'list', 'zip', 'dir', 'dict', 'type', 'property', 'Generic', 'tuple',
                      'AssertionError', 'GenericMixin', 'StrEnum', 'ABC', 'isinstance', 'issubclass'}
     for tree in (tree_g, tree_w):
         for n in ast.walk(tree):
@@ -348,12 +381,17 @@ def translate():
             and dump(cn[0].value) == dump(ast.parse('type(self).__name__').body[0].value)):
         bad('class_name is not `return type(self).__name__`')
 
-    functions = {'get_generic_base': 'obj'}
+    rgb = find_def(tree_g, '_resolve_generic_base', UNIT)
+    if rgb not in tree_g.body or rgb.decorator_list or not plain_args(rgb, ['origin', 'args']) or isinstance(rgb, ast.AsyncFunctionDef):
+        bad('_resolve_generic_base is not a plain module-level function of the parameters origin, args')
+    functions = {'get_generic_base': 'obj', '_resolve_generic_base': ['origin', 'args']}
     mixin_ctx = dict(self_name='self', properties={'type_var', 'type_vars'}, methods={'_get_types'}, functions=functions,
                      harmless_props={'class_name'})
     out_defs = []
     f0 = Fn(['obj'], functions={})
     out_defs.append(('get_generic_base', f0.fundef(ggb.body, False), provenance(REL_G, src_g, ggb)))
+    f1 = Fn(['origin', 'args'], functions=functions)
+    out_defs.append(('_resolve_generic_base', f1.fundef(rgb.body, False), provenance(REL_G, src_g, rgb)))
     for name, is_prop in (('_get_types', False), ('type_var', True), ('type_vars', True)):
         fx = Fn(['self'], **mixin_ctx)
         out_defs.append((name, fx.fundef(members[name].body, is_prop), provenance(REL_G, src_g, members[name])))
@@ -383,6 +421,10 @@ def translate():
         return [c for c in ast.walk(node) if isinstance(c, ast.Call) and is_name(c.func, fname) and len(c.args) == 2
                 and is_name(c.args[1], second)]
     loops = [n for n in ast.walk(members['_get_types']) if isinstance(n, ast.For)]
+    if len(loops) != 1 or not [c for c in ast.walk(loops[0]) if isinstance(c, ast.Call) and is_name(c.func, '_resolve_generic_base')]:
+        bad('_get_types looks only one level up (get_generic_base(base.__origin__)) instead of resolving the parameters through '
+            'forwarding / partially binding classes with _resolve_generic_base: defect K-C20-forwarding-chain / '
+            'K-C20-partially-binding-chain (class C(Mid[int]) with class Mid(A[T]) raises AttributeError)')
     if len(loops) != 1 or not calls(loops[0], 'issubclass', 'GenericMixin'):
         bad('_get_types takes the first parametrised base for the binding base without testing issubclass(base.__origin__, GenericMixin): '
             'defect K-C20-builtin-alias-first / K-C20-foreign-generic-first (class S1(List[int], D[str]) raises AttributeError, '
